@@ -94,6 +94,9 @@ class Run:
 
     def floor(self, label, got, need):
         self.floors.append((label, got, need))
+        if got < need and self.violations:
+            # fewer instances than expected, but specific violations explain it: report those
+            return
         if got < need:
             raise AnalysisError(
                 f"instance floor not met: {label}: found {got}, expected at least {need} "
